@@ -8,6 +8,7 @@ pub mod c05;
 pub mod c06;
 pub mod c07;
 pub mod c08;
+pub mod c09;
 pub mod c11;
 pub mod c12;
 pub mod c13;
@@ -39,6 +40,7 @@ pub fn registry() -> Vec<(&'static str, CheckFn)> {
         ("C06", c06::run as CheckFn),
         ("C07", c07::run as CheckFn),
         ("C08", c08::run as CheckFn),
+        ("C09", c09::run as CheckFn),
         ("C11", c11::run as CheckFn),
         ("C12", c12::run as CheckFn),
         ("C13", c13::run as CheckFn),
